@@ -340,10 +340,22 @@ def build(tier):
                     'gboost::mean_error / mean_loss: row 0 resp. 1, every listed sample exactly once in list order from 0.0, divided by max(#samples, 1)',
                     'ml::result_t::store(values, extra) / stats(value): error row -> m_optims row 0, loss row -> row 1; errors read row 0, losses row 1',
                     'weak learner do_predict (stump, tables, affine, hinge, dtree; contracts of specs/C10 run here by reference): the selected table is ADDED to the outputs row of the sample exactly once, no other row is written -- so the model prediction is bias plus the sum of the learners\' predictions',
+                    'LINEAR MODELS (protocol, numerics erased, every real tensor carries ghost provenance tags; linear.h): '
+                    '::fit of src/linear.cpp: one iterator over the given samples with the configured scaling, the objective made over THAT iterator with the given hyper-parameters, exactly one minimisation started from the x0 made '
+                    'for this objective from the given `extra`; bias and weights are extracted from the solution of that minimisation (each by its own accessor) and up-scaled exactly once, in place, with the flatten / targets '
+                    'statistics (in this order) and the scaling of the iterator the objective was fitted over; the returned result holds them as bias resp. weights (real constructor: 3 statistics slots, written inside)',
+                    'linear::evaluate (+ its chunk lambda, ghost position): the result is (2, #samples); every position is predicted exactly once with the GIVEN weights / bias from the UNSCALED inputs of the chunk that holds it, '
+                    'then the error goes to row 0 and the loss value to row 1, each exactly once, computed from that chunk\'s targets and these predictions (never from stale outputs)',
+                    'tuning callback of linear_t::fit (per (trial, fold) task): exactly one model is fitted, on the fold\'s TRAINING samples with the trial\'s hyper-parameters; the first returned statistics are those of THAT model on the '
+                    'training samples, the second those of THAT model on the VALIDATION samples, the third component is that model',
+                    'linear_t::fit: tuning runs on the samples given to fit(); exactly one refit after it, with params(optimum_trial()) (inside its precondition) on ALL given samples; m_weights / m_bias are the up-scaled weights / '
+                    'bias of that refit; the final statistics are evaluated with exactly the stored weights / bias on the samples given to fit() and stored exactly once together with the refit result',
                     'try_merge step of wlearner::merge (sum preservation): do_try_merge adds the other tables exactly when feature and table dimensions agree, else changes nothing; '
                     'table_wlearner_t / affine_wlearner_t::try_merge attempt it only with a learner of the same kind, its feature and its tables, and for look-up tables only with equal label hashes AND equal hash -> table mapping'],
         'not_decided': ['statistics equal those recomputed from scratch by predicting (numeric equality through loss/predict)',
-                        'the linear-model side of the statement (linear_t::fit, src/linear/util.cpp)'],
+                        'linear models: linear_t::make_x0 (warm start: numerics), the four make_function overrides (ordinary / lasso / ridge / elastic net) and linear::predict are used through assumed contracts; '
+                        'linear_t::do_predict (the stored model is what predict() uses) is not under contract; ml::tune is used through the clauses C13 proves (the callback runs once per (trial, fold) on that fold\'s split '
+                        'and its three results are stored under (trial, fold)): the composition callback-contract + C13 is by reading, not machine-checked'],
         'assumptions': ['gboost::mean_error is a deterministic function of (errors, samples) (assumed contract)',
                         'gboost parameters inside their registered domains: 10 <= max_rounds <= 10^6, 1 <= patience <= 1000 (gboost_model_t constructor; C19)',
                         'history lemma: 1 <= patience <= 2^62 and at most 2^62 observations (so that round + patience does not wrap in size_t); the initial state of the monitor counts as an accepted improvement at round 0 '
@@ -356,6 +368,12 @@ def build(tier):
                         'tensor contents are ghost identities in the try_merge targets: operator== on tensors / dims is equality of identities; m_tables.vector() += t adds t coefficient-wise (Eigen); the sum of two tables over the same hashes and mapping is the table of the sum of the functions',
                         'std::for_each / std::accumulate apply the operation once to every element of [first, last) in order; tensor_t::indexed(indices, out) gathers out(i) = self(indices(i))',
                         'every sample listed in the index lists handed to mean_error / mean_loss is a column of errors_losses (C12: splits of arange(0, samples)); index lists hold at most 2^31 - 1 samples',
+                        'linear models (assumed contracts of the stubs in linear.h): flatten_iterator_t{dataset, samples} iterates over `samples`; scaling(x) / scaling() are setter / getter; flatten_stats() / targets_stats() are the '
+                        'statistics of that iterator; flatten_iterator_t::loop calls the callback once per chunk, the chunks tile [0, #samples) and carry the inputs / targets of exactly that chunk (C09), serialised; '
+                        'linear_t::make_function(iterator, loss, params) is the objective over the iterator\'s samples with these hyper-parameters; make_x0(function, extra) depends on (function, extra) only; solver_t::minimize returns a state '
+                        'of the objective it was given; function_t::bias / weights extract the two parts of a solution; ::upscale rewrites (weights, bias) in place (C14: the affine map it computes); linear::predict writes one output row per '
+                        'input row; loss_t::error / value write one destination element per (target row, output row); ml::tune returns trials() >= 1, 0 <= optimum_trial() < trials() (C13); params(trial) is row `trial` of the parameter table; '
+                        'lists of at most 10^9 samples; learner_t::fit_dataset touches the learner_t base only; dropped statements: iterator.batch / cache_flatten / cache_targets, fit_params.log, loggers',
                         'a fold model holds at most 10^6 learners (gboost::max_rounds domain); m_optims of ml::result_t is (2, 12) (its constructor, specs/C13/result_ctor.h); store(values, ..) is given a (2, n) tensor (::selected, proved here)'],
         'trusted': [],
     }
